@@ -316,6 +316,48 @@ def check_poll_protocol(ctx):
     lk = [(b, c) for (b, c) in body.calls if (c.get("resolved") or c.get("f")) == R.SPIN_LOCK]
     retry = any(body.dominates(lb, wb) for (lb, _) in lk for (wb, _) in wk)
     ctx.ob("R04.2", f"{k}|retries-under-lock-when-empty", len(wk) >= 2 and retry, f"{body.f['file']}:{body.f['line']}", "wake_stream wakes the registered waker and, when it found the slot empty, looks again under wakers_lock")
+    # R04.7 the wake primitive is complete: wake_stream returns only after it woke the waker registered under the id it was given, or after it found that slot
+    # empty while holding wakers_lock (the lock the registration holds while it stores: an empty slot seen under it means the stream has not parked yet and will
+    # self-wake after its store, R04.2).  An early-out on any other condition (a busy lock, a 'wake already requested' flag, a count) drops wake-ups.
+    slot_locals = set()
+    for (gb, gc) in body.calls:
+        if gc.get("fname") in ("get_unchecked", "get_unchecked_mut", "get", "get_mut") and len(gc["args"]) > 1 and not gc["dst"]["p"]:
+            base_ = str(ts.access_path(body, gc["args"][0]) or show(dg.expr(gc["args"][0])))
+            i_ = strip_casts(dg.expr(gc["args"][1]))
+            if "wakers" in base_ and i_[:2] == ("param", 2): slot_locals.add(gc["dst"]["l"])
+    def _root(l, depth=0):
+        """the slot local a reference was derived from (`&((*slot) as Some).0`, re-borrows, copies)"""
+        while depth < 10 and l is not None and l not in slot_locals:
+            d = body.single_def(l)
+            if d is None or d[1] == "T": return None
+            rv = d[2]
+            if rv[0] in ("Ref", "RawPtr"): l = rv[2]["l"]
+            elif rv[0] == "Use" and rv[1][0] in ("c", "m"): l = rv[1][1]["l"]
+            else: return None
+            depth += 1
+        return l
+    slot_tests = []
+    for b in sorted(body.reachable):
+        vs = util.variant_switch(body, dg, b)
+        if not vs or _root(vs[3]) is None: continue
+        some_t, none_t = util.arm(vs[1], vs[2], 1), util.arm(vs[1], vs[2], 0)
+        locked = any(body.dominates(lb, b) for (lb, _) in lk) and not any(body.dominates(ub_, b) for (ub_, c_) in body.calls if (c_.get("resolved") or c_.get("f")) == R.SPIN_UNLOCK)
+        slot_tests.append((b, some_t, none_t, locked))
+    wake_ok = {wb for (wb, wc) in wk if _root(op_local(wc["args"][0])) is not None}
+    cut_edges = {(tb, none_t) for (tb, some_t, none_t, locked) in slot_tests if locked and some_t != none_t}
+    seen_, st_ = set(), [0]
+    while st_:
+        x = st_.pop()
+        if x in seen_ or x in wake_ok: continue
+        seen_.add(x)
+        for y in body.succ(x):
+            if (x, y) not in cut_edges: st_.append(y)
+    escapes = sorted(r for r in body.returns if r in seen_)
+    ctx.ob("R04.7", f"{k}|returns-only-after-waking-or-finding-the-slot-empty-under-the-lock", bool(wake_ok) and bool(slot_tests) and not escapes,
+           body.loc(escapes[0]) if escapes else f"{body.f['file']}:{body.f['line']}",
+           f"{len(wake_ok)} wake(s) of wakers[stream_id], {len(slot_tests)} test(s) of that slot ({sum(1 for t in slot_tests if t[3])} under wakers_lock); " +
+           ("every return lies after a wake of the addressed waker or on the empty edge of the locked re-check" if not escapes else
+            "a path returns without waking the registered waker and without having seen the slot empty under wakers_lock: that wake-up is dropped"))
     # the stream's poll reaches the manager through the channel's ChannelConsumer plumbing: forwarded with the same id / waker
     import delegation
     for name, path in R.CHANNELS.items():
